@@ -141,3 +141,5 @@ CONTRACT[K + 'get_HTMLColorString'] = dict(
     ensures=['render_ok(result, self.seq, self.len, self.aminoAcidColorMap, True)'])
 LOOPS[K + 'get_HTMLColorString'] = {0: dict(index='k', types={'colorString': 'str'}, invariant=[
     'count == k - 1', 'render_ok(colorString, self.seq, k, self.aminoAcidColorMap, False)'])}
+
+assert all(c.isalpha() for n in HTML_COLOURS for c in n), 'a colour name with markup characters would break the colour-symbol abstraction'
